@@ -89,12 +89,12 @@ Proof.
     destruct x as [b|f].
     + unfold fallback_for. destruct (bfb b) as [fb|].
       * rewrite (usize_add_1 j) by lia. cbn [bind].
-        destruct (o_join o && negb (Z.of_nat (S j) =? Z.of_nat (length (items (o_bounds o)))))%bool; rewrite <- ?app_assoc, ?app_nil_r; reflexivity.
+        destruct (o_join o), (Z.of_nat (S j) =? Z.of_nat (length (items (o_bounds o)))); cbn [andb negb app]; rewrite <- ?app_assoc, ?app_nil_r; reflexivity.
       * destruct (o_fallback o) as [fb|]; [|reflexivity].
         rewrite (usize_add_1 j) by lia. cbn [bind].
-        destruct (o_join o && negb (Z.of_nat (S j) =? Z.of_nat (length (items (o_bounds o)))))%bool; rewrite <- ?app_assoc, ?app_nil_r; reflexivity.
+        destruct (o_join o), (Z.of_nat (S j) =? Z.of_nat (length (items (o_bounds o)))); cbn [andb negb app]; rewrite <- ?app_assoc, ?app_nil_r; reflexivity.
     + rewrite (usize_add_1 j) by lia. cbn [bind].
-      destruct (o_join o && negb (Z.of_nat (S j) =? Z.of_nat (length (items (o_bounds o)))))%bool; rewrite <- ?app_assoc, ?app_nil_r; reflexivity.
+      destruct (o_join o), (Z.of_nat (S j) =? Z.of_nat (length (items (o_bounds o)))); cbn [andb negb app]; rewrite <- ?app_assoc, ?app_nil_r; reflexivity.
 Qed.
 
 (** what follows the main loop: the pending bound that has printed lines, then the rest *)
@@ -125,10 +125,10 @@ Proof.
           apply (f_equal (@length _)) in E2. rewrite skipn_length in E2. cbn in E2. lia. }
       rewrite <- Esep.
       destruct (fwd_tail o (skipn (S i) (items (o_bounds o)))) as [r|].
-      * destruct (o_join o && negb (Z.of_nat (S i) =? Z.of_nat (length (items (o_bounds o)))))%bool;
-          cbn [app] in *; rewrite ?app_nil_r in H6; rewrite H6, <- ?app_assoc; reflexivity.
+      * destruct (o_join o), (Z.of_nat (S i) =? Z.of_nat (length (items (o_bounds o)))); cbn [andb negb app] in *;
+          rewrite ?app_nil_r in H6; rewrite H6, <- ?app_assoc; reflexivity.
       * destruct H6 as [p H6]. exists p.
-        destruct (o_join o && negb (Z.of_nat (S i) =? Z.of_nat (length (items (o_bounds o)))))%bool; rewrite ?app_nil_r in H6; exact H6.
+        destruct (o_join o), (Z.of_nat (S i) =? Z.of_nat (length (items (o_bounds o)))); cbn [andb negb app] in *; rewrite ?app_nil_r in H6; exact H6.
   - assert (Ef : fwd_finish o (skipn i (items (o_bounds o))) false = fwd_tail o (skipn i (items (o_bounds o))))
       by (unfold fwd_finish; destruct (skipn i (items (o_bounds o))) as [|[b|f] r]; reflexivity).
     rewrite Ef. exact (s6_spec o sin out lb li i false Hi Hn).
@@ -337,13 +337,15 @@ Proof.
     destruct x as [b|f].
     + rewrite tie_ub_matches. cbn [bind].
       destruct (matches b (li + 1)) as [[|]|]; try reflexivity.
+      rewrite ?(side_eqb_sym (SSome (li + 1)) (br b)).
       destruct (side_eqb (br b) (SSome (li + 1))).
       * rewrite (usize_add_1 j) by lia. cbn [bind].
-        destruct an0; destruct (o_join o && negb (Z.of_nat (S j) =? Z.of_nat (length (items (o_bounds o)))))%bool;
-          cbn [app]; rewrite <- ?app_assoc, ?app_nil_r; reflexivity.
+        destruct an0; destruct (o_join o), (Z.of_nat (S j) =? Z.of_nat (length (items (o_bounds o)))); cbn [andb negb];
+          rewrite <- ?app_assoc, ?app_nil_r; cbn [app]; rewrite ?app_nil_r; reflexivity.
       * destruct an0; cbn [app]; rewrite <- ?app_assoc; reflexivity.
     + rewrite (usize_add_1 j) by lia. cbn [bind].
-      destruct (o_join o && negb (Z.of_nat (S j) =? Z.of_nat (length (items (o_bounds o)))))%bool; rewrite <- ?app_assoc, ?app_nil_r; reflexivity.
+      destruct (o_join o), (Z.of_nat (S j) =? Z.of_nat (length (items (o_bounds o)))); cbn [andb negb];
+        rewrite <- ?app_assoc, ?app_nil_r; cbn [app]; rewrite ?app_nil_r; reflexivity.
   - rewrite E. destruct (fwd_bounds o (skipn i (items (o_bounds o))) an (li + 1) line) as [[o' restb] an'].
     destruct Htag as [-> | ->]; cbn [bind];
       destruct (Z.of_nat (length (items (o_bounds o)) - length restb) =? Z.of_nat (length (items (o_bounds o)))); reflexivity.
